@@ -1,9 +1,782 @@
-"""datetime family model (filled in by the calendar harnesses)"""
+"""Model of the datetime family for symbolic execution (DESIGN.md 2.2).
+
+An instant is ONE linear integer form: microseconds since 1970-01-01T00:00 (naive).  All
+timedelta / total_seconds traffic stays in that epoch space as integer terms.  Civil fields are
+materialised lazily per day number; the month (12-way) and February's leap status are FORKED on the
+path at that moment so that every date formula on the path is month-constant.  An instant whose form
+differs from an already materialised instant by a constant is resolved by carry/borrow forks on the
+known fields instead of a second inversion.
+
+Local time zone: timestamp()/fromtimestamp() are the only OS dependencies; they are modelled with a
+symbolic zone (engine attribute tz): 'utc' (offset 0), ('const',) one symbolic offset, ('dst',) two
+symbolic offsets around a symbolic transition instant.
+"""
+import builtins
+import datetime as _dt
+from fractions import Fraction
+
+from . import engine as E
+from .engine import SymInt, SymReal, SymNum, SymFrac, Lin, And, Or, Not, Implies, ModelGap, cur, lin_of
+
+DAY_US = 86400 * 10**6
+YLO, YHI = 1890, 2210  # civil fields are only modelled inside this window
+_REAL_EPOCH = _dt.datetime(1970, 1, 1)
+CUM = [0, 31, 59, 90, 120, 151, 181, 212, 243, 273, 304, 334]  # days before month m (non-leap)
+DIM = [31, 28, 31, 30, 31, 30, 31, 31, 30, 31, 30, 31]
+
+
+def _I(x):
+    """SymInt / int -> SymInt-or-int usable in proxy arithmetic"""
+    if isinstance(x, bool):
+        return int(x)
+    return x
+
+
+def _is_int_lin(e, l):
+    return l.c.denominator == 1 and all(e.vsort[v] == "I" and k.denominator == 1 for v, k in l.t.items())
+
+
+def to_us(x, unit):
+    """number (int/float/SymInt/SymReal) of `unit` microseconds -> integer microseconds (round half even like timedelta)"""
+    if isinstance(x, SymFrac):
+        x = x.mat()
+    if isinstance(x, SymNum):
+        l = x.lin.scale(Fraction(unit))
+        if not l.t:
+            return int(round(l.c))
+        if _is_int_lin(cur(), l):
+            return SymInt(l)
+        return SymInt(cur().aux_round(l))
+    if isinstance(x, float):
+        return int(round(Fraction(x) * unit))
+    return int(x) * unit
+
+
+# ----------------------------------------------------------------------------------------
+# calendar arithmetic on proxies (month concrete)
+# ----------------------------------------------------------------------------------------
+def days_before_year(y):
+    """days from 0001-01-01-based proleptic count to 1 Jan of year y, shifted so that 1970-01-01 -> 0"""
+    y1 = y - 1
+    return y1 * 365 + y1 // 4 - y1 // 100 + y1 // 400 - 719162
+
+
+def is_leap_cond(y):
+    return And(y % 4 == 0, Or(Not(y % 100 == 0), y % 400 == 0))
+
+
+def leap_of(y):
+    """decide (fork) the leap status of year y on this path"""
+    if isinstance(y, int):
+        return y % 4 == 0 and (y % 100 != 0 or y % 400 == 0)
+    e = cur()
+    memo = e.pm.setdefault("leap_memo", {})
+    k = y.lin.key()
+    if k not in memo:
+        c = is_leap_cond(y)
+        memo[k] = c if isinstance(c, bool) else e.branch(c)
+    return memo[k]
+
+
+def dim(y, m):
+    if m == 2:
+        return 29 if leap_of(y) else 28
+    return DIM[m - 1]
+
+
+def day_number(y, m, d):
+    """days since 1970-01-01 of the civil date (m concrete)"""
+    n = days_before_year(y) + CUM[m - 1] + (d - 1)
+    if m > 2 and leap_of(y):
+        n = n + 1
+    return n
+
+
+class Civil(object):
+    __slots__ = ("y", "m", "d")
+
+    def __init__(self, y, m, d):
+        self.y, self.m, self.d = y, m, d
+
+
+def _key(x):
+    return lin_of(x).key()
+
+
+def civil_of_day(N):
+    """(y, m, d) of day number N; forks the month and (for Jan/Feb boundaries) the leap status"""
+    if isinstance(N, int) or not N.lin.t:
+        n = N if isinstance(N, int) else int(N.lin.c)
+        d = _dt.date(1970, 1, 1) + _dt.timedelta(days=n)
+        return Civil(d.year, d.month, d.day)
+    e = cur()
+    memo = e.pm.setdefault("civil_memo", {})
+    k = N.lin.key()
+    if k in memo:
+        return memo[k]
+    # relative to an already materialised day: carry / borrow
+    for k2, (N2, c2) in list(e.pm.setdefault("civil_days", {}).items()):
+        diff = N.lin.sub(N2.lin)
+        if not diff.t and abs(diff.c) <= 62 and diff.c.denominator == 1:
+            c = shift_days(c2, int(diff.c))
+            memo[k] = c
+            e.pm["civil_days"][k] = (N, c)
+            return c
+    cnt = e.pm.setdefault("civil_cnt", [0])
+    cnt[0] += 1
+    # year and day-of-month are primitive bounded integers tied to N by ONE linear equation per month (the solver
+    # then reasons about d mod k etc. on a variable in [1,31] instead of on a long form over N and year quotients)
+    y = e.integer("cy%d" % cnt[0], YLO, YHI)
+    d = e.integer("cd%d" % cnt[0], 1, 31)
+    lp = leap_of(y)
+    doy = N - days_before_year(y)  # 0-based day of year
+    e.assume(And(doy >= 0, doy <= (365 if lp else 364)))
+    acc = 0
+    mth = None
+    for m in range(1, 13):
+        dm = DIM[m - 1] + (1 if (m == 2 and lp) else 0)
+        if m == 12 or e.branch(doy < acc + dm):
+            mth = m
+            break
+        acc += dm
+    e.assume(And(d == doy - acc + 1, d <= dm))
+    c = Civil(y, mth, d)
+    memo[k] = c
+    e.pm["civil_days"][k] = (N, c)
+    return c
+
+
+def _truth(c):
+    return c if isinstance(c, bool) else cur().branch(c)
+
+
+def shift_days(c, k):
+    """civil date k days after c (k small concrete, may be negative), by carry/borrow forks"""
+    if k == 0:
+        return c
+    if all(isinstance(v, int) for v in (c.y, c.m, c.d)):
+        d = _dt.date(c.y, c.m, c.d) + _dt.timedelta(days=k)
+        return Civil(d.year, d.month, d.day)
+    y, m, d = c.y, c.m, c.d + k
+    for _ in range(5):
+        if k > 0:
+            dm = dim(y, m)
+            if _truth(d <= dm):
+                return Civil(y, m, d)
+            d = d - dm
+            if m == 12:
+                y, m = y + 1, 1
+            else:
+                m = m + 1
+        else:
+            if _truth(d >= 1):
+                return Civil(y, m, d)
+            if m == 1:
+                y, m = y - 1, 12
+            else:
+                m = m - 1
+            d = d + dim(y, m)
+    raise ModelGap("shift_days: more than 4 month crossings")
+
+
+# ----------------------------------------------------------------------------------------
+class SymTD(object):
+    """timedelta: integer microseconds"""
+
+    __symbolic__ = True
+    __hash__ = None
+
+    def __init__(self, us):
+        self.us = us
+
+    def total_seconds(self):
+        if isinstance(self.us, int):
+            return self.us / 10**6
+        return SymReal(self.us.lin.scale(Fraction(1, 10**6)))
+
+    @property
+    def days(self):
+        return self.us // DAY_US
+
+    @property
+    def seconds(self):
+        return (self.us % DAY_US) // 10**6
+
+    @property
+    def microseconds(self):
+        return self.us % 10**6
+
+    def _o(self, o):
+        if isinstance(o, SymTD):
+            return o.us
+        if isinstance(o, _dt.timedelta):
+            return (o.days * 86400 + o.seconds) * 10**6 + o.microseconds
+        return None
+
+    def __add__(self, o):
+        if isinstance(o, (SymDT, _dt.datetime)):
+            return SymDT.lift(o) + self
+        u = self._o(o)
+        return NotImplemented if u is None else SymTD(self.us + u)
+
+    __radd__ = __add__
+
+    def __sub__(self, o):
+        u = self._o(o)
+        return NotImplemented if u is None else SymTD(self.us - u)
+
+    def __rsub__(self, o):
+        if isinstance(o, _dt.datetime):
+            return SymDT.lift(o) - self
+        u = self._o(o)
+        return NotImplemented if u is None else SymTD(u - self.us)
+
+    def __neg__(self):
+        return SymTD(-self.us)
+
+    def __mul__(self, k):
+        if isinstance(k, int):
+            return SymTD(self.us * k)
+        raise ModelGap("timedelta * non-int")
+
+    __rmul__ = __mul__
+
+    def _c(self, o, f):
+        u = self._o(o)
+        if u is None:
+            return NotImplemented
+        return f(self.us, u)
+
+    def __lt__(self, o):
+        return self._c(o, lambda a, b: a < b)
+
+    def __le__(self, o):
+        return self._c(o, lambda a, b: a <= b)
+
+    def __gt__(self, o):
+        return self._c(o, lambda a, b: a > b)
+
+    def __ge__(self, o):
+        return self._c(o, lambda a, b: a >= b)
+
+    def __eq__(self, o):
+        r = self._c(o, lambda a, b: a == b)
+        return False if r is NotImplemented else r
+
+    def __ne__(self, o):
+        r = self._c(o, lambda a, b: a != b)
+        return True if r is NotImplemented else r
+
+    def __repr__(self):
+        return "SymTD(%r us)" % (self.us,)
+
+
+def timedelta(days=0, seconds=0, microseconds=0, milliseconds=0, minutes=0, hours=0, weeks=0):
+    args = (days, seconds, microseconds, milliseconds, minutes, hours, weeks)
+    if not any(isinstance(a, (SymNum, SymFrac)) for a in args):
+        return _dt.timedelta(days=days, seconds=seconds, microseconds=microseconds, milliseconds=milliseconds, minutes=minutes, hours=hours, weeks=weeks)
+    us = 0
+    for a, unit in ((days, DAY_US), (seconds, 10**6), (microseconds, 1), (milliseconds, 1000), (minutes, 60 * 10**6), (hours, 3600 * 10**6), (weeks, 7 * DAY_US)):
+        if isinstance(a, (int, float)) and a == 0:
+            continue
+        us = us + to_us(a, unit)
+    return SymTD(us)
+
+
+class SymDT(object):
+    """naive datetime: integer microseconds since 1970-01-01T00:00"""
+
+    __symbolic__ = True
+    __hash__ = None
+    kind = "datetime"
+
+    def __init__(self, us):
+        if isinstance(us, SymInt) and not us.lin.t:
+            us = int(us.lin.c)
+        self.us = us  # SymInt or int
+
+    # ---- construction
+    @staticmethod
+    def lift(x):
+        if isinstance(x, SymDT):
+            return x
+        if isinstance(x, _dt.datetime):
+            d = x - _REAL_EPOCH
+            return SymDT((d.days * 86400 + d.seconds) * 10**6 + d.microseconds)
+        raise TypeError("not a datetime: %r" % (x,))
+
+    @staticmethod
+    def fresh(e, name, ylo=1900, yhi=2200, unit_us=1000):
+        """fresh instant at `unit_us` resolution between 1 Jan ylo and 31 Dec yhi"""
+        # FIELD FORM: day number, hour, minute, second, sub-second are primitive bounded integers, so that every
+        # floor / div / mod the code applies to the instant can be read off syntactically (engine._integral_split)
+        lo = (_dt.date(ylo, 1, 1) - _dt.date(1970, 1, 1)).days
+        hi = (_dt.date(yhi, 12, 31) - _dt.date(1970, 1, 1)).days
+        N = e.integer(name + "_day", lo, hi)
+        h = e.integer(name + "_h", 0, 23)
+        mi = e.integer(name + "_mi", 0, 59)
+        sec = e.integer(name + "_s", 0, 59)
+        if 10**6 % unit_us:
+            raise ModelGap("resolution must divide a second")
+        sub = e.integer(name + "_sub", 0, 10**6 // unit_us - 1) if unit_us < 10**6 else 0
+        tod = ((h * 60 + mi) * 60 + sec) * 10**6 + sub * unit_us
+        r = SymDT.from_split(N, tod)
+        e.pm.setdefault("hms_memo", {})[tod.lin.key()] = (h, mi, sec, sub * unit_us)
+        e.pm.setdefault("hms_known", {})[tod.lin.key()] = (tod, (h, mi, sec, sub * unit_us))
+        return r
+
+    @staticmethod
+    def from_fields(year, month, day, hour=0, minute=0, second=0, microsecond=0):
+        e = E.ENGINE
+        # month must be concrete on the path
+        if isinstance(month, SymInt):
+            if e.branch(Or(month < 1, month > 12)):
+                raise ValueError("month must be in 1..12")
+            month = month.__index__()
+        elif not 1 <= month <= 12:
+            raise ValueError("month must be in 1..12")
+        if isinstance(year, SymInt):
+            if e.branch(Or(year < 1, year > 9999)):
+                raise ValueError("year %r is out of range" % (year,))
+        elif not 1 <= year <= 9999:
+            raise ValueError("year %i is out of range" % year)
+        bad = Or(day < 1, day > dim(year, month))
+        if bad is True or (bad is not False and e.branch(bad)):
+            raise ValueError("day is out of range for month")
+        for v, hi, nm in ((hour, 23, "hour"), (minute, 59, "minute"), (second, 59, "second"), (microsecond, 999999, "microsecond")):
+            b = Or(v < 0, v > hi)
+            if b is True or (b is not False and e.branch(b)):
+                raise ValueError("%s must be in 0..%d" % (nm, hi))
+        N = day_number(year, month, day)
+        tod = ((hour * 60 + minute) * 60 + second) * 10**6 + microsecond
+        r = SymDT(N * DAY_US + tod)
+        if isinstance(N, SymInt):
+            c = Civil(year, month, day)
+            e.pm.setdefault("civil_memo", {})[N.lin.key()] = c
+            e.pm.setdefault("civil_days", {})[N.lin.key()] = (N, c)
+            if isinstance(r.us, SymInt):
+                e.pm.setdefault("split_memo", {})[r.us.lin.key()] = (N, tod)
+                e.pm.setdefault("split_known", {})[r.us.lin.key()] = (r.us, N, tod)
+        return r
+
+    @staticmethod
+    def from_split(N, tod, civil=None):
+        """instant with KNOWN day number / microsecond of day (registered so that no divmod is needed later)"""
+        r = SymDT(N * DAY_US + tod)
+        e = E.ENGINE
+        if e is not None and isinstance(r.us, SymInt):
+            k = r.us.lin.key()
+            e.pm.setdefault("split_memo", {}).setdefault(k, (N, tod))
+            e.pm.setdefault("split_known", {}).setdefault(k, (r.us, N, tod))
+            if civil is not None and isinstance(N, SymInt):
+                e.pm.setdefault("civil_memo", {}).setdefault(N.lin.key(), civil)
+                e.pm.setdefault("civil_days", {}).setdefault(N.lin.key(), (N, civil))
+        return r
+
+    # ---- decomposition
+    def _split(self):
+        """(day number, microsecond of day)"""
+        if isinstance(self.us, int):
+            return self.us // DAY_US, self.us % DAY_US
+        e = cur()
+        memo = e.pm.setdefault("split_memo", {})
+        k = self.us.lin.key()
+        if k in memo:
+            return memo[k]
+        # relative to a known split: carry / borrow on the time of day
+        for k2, (us2, N2, tod2) in list(e.pm.setdefault("split_known", {}).items()):
+            diff = self.us.lin.sub(us2.lin)
+            if not diff.t and diff.c.denominator == 1 and abs(diff.c) <= 40 * DAY_US:
+                c = int(diff.c)
+                dd, rr = divmod(c, DAY_US)
+                tod = tod2 + rr
+                N = N2 + dd
+                over = tod >= DAY_US
+                if over is True or (over is not False and e.branch(over)):
+                    tod = tod - DAY_US
+                    N = N + 1
+                memo[k] = (N, tod)
+                e.pm["split_known"][k] = (self.us, N, tod)
+                return memo[k]
+        N = self.us // DAY_US
+        tod = self.us % DAY_US
+        memo[k] = (N, tod)
+        e.pm["split_known"][k] = (self.us, N, tod)
+        return memo[k]
+
+    def _civil(self):
+        N, _ = self._split()
+        return civil_of_day(N)
+
+    year = property(lambda s: s._civil().y)
+    month = property(lambda s: s._civil().m)
+    day = property(lambda s: s._civil().d)
+    def _hms(self):
+        """(hour, minute, second, microsecond) by a CHAIN of divmods (tod = secs*1e6 + us, secs = mins*60 + s,
+        mins = h*60 + mi): recomposition is then pure linear substitution for the solver"""
+        tod = self._split()[1]
+        if isinstance(tod, int):
+            secs, us = divmod(tod, 10**6)
+            mins, sec = divmod(secs, 60)
+            h, mi = divmod(mins, 60)
+            return h, mi, sec, us
+        e = cur()
+        memo = e.pm.setdefault("hms_memo", {})
+        known = e.pm.setdefault("hms_known", {})
+        k = tod.lin.key()
+        if k in memo:
+            return memo[k]
+        # relative to an already decomposed time of day: add the constant difference with carry forks
+        for k2, (tod2, parts) in list(known.items()):
+            diff = tod.lin.sub(tod2.lin)
+            if not diff.t and diff.c.denominator == 1:
+                c = int(diff.c)
+                csec, dus = divmod(c, 10**6)
+                cmin, ds = divmod(csec, 60)
+                dh, dmi = divmod(cmin, 60)
+                h, mi, sec, us = parts
+                us = us + dus
+                carry = 0
+                if dus and _truth(us >= 10**6):
+                    us, carry = us - 10**6, 1
+                sec = sec + ds + carry
+                carry = 0
+                if (ds or dus) and _truth(sec >= 60):
+                    sec, carry = sec - 60, 1
+                mi = mi + dmi + carry
+                carry = 0
+                if (dmi or ds or dus) and _truth(mi >= 60):
+                    mi, carry = mi - 60, 1
+                h = h + dh + carry
+                memo[k] = (h, mi, sec, us)
+                known[k] = (tod, memo[k])
+                return memo[k]
+        secs, us = tod // 10**6, tod % 10**6
+        mins, sec = secs // 60, secs % 60
+        h, mi = mins // 60, mins % 60
+        memo[k] = (h, mi, sec, us)
+        known[k] = (tod, memo[k])
+        return memo[k]
+
+    hour = property(lambda s: s._hms()[0])
+    minute = property(lambda s: s._hms()[1])
+    second = property(lambda s: s._hms()[2])
+    microsecond = property(lambda s: s._hms()[3])
+
+    def isoweekday(self):
+        N, _ = self._split()
+        return (N + 3) % 7 + 1
+
+    def weekday(self):
+        N, _ = self._split()
+        return (N + 3) % 7
+
+    def replace(self, year=None, month=None, day=None, hour=None, minute=None, second=None, microsecond=None, tzinfo=True):
+        c = self._civil()
+        N, tod = self._split()
+        if hour is None and minute is None and second is None and microsecond is None:
+            y = c.y if year is None else year
+            m = c.m if month is None else month
+            d = c.d if day is None else day
+            r = SymDT.from_fields(y, m, d)
+            return SymDT(r.us + tod)
+        return SymDT.from_fields(
+            c.y if year is None else year, c.m if month is None else month, c.d if day is None else day,
+            self.hour if hour is None else hour, self.minute if minute is None else minute, self.second if second is None else second, self.microsecond if microsecond is None else microsecond,
+        )
+
+    def date(self):
+        N, _ = self._split()
+        return SymDate(N)
+
+    def time(self):
+        return SymTime(self._split()[1])
+
+    def __deepcopy__(self, memo):
+        return self
+
+    def __copy__(self):
+        return self
+
+    # ---- arithmetic
+    def __add__(self, o):
+        if isinstance(o, SymTD):
+            return SymDT(self.us + o.us)
+        if isinstance(o, _dt.timedelta):
+            return SymDT(self.us + ((o.days * 86400 + o.seconds) * 10**6 + o.microseconds))
+        return NotImplemented
+
+    __radd__ = __add__
+
+    def __sub__(self, o):
+        if isinstance(o, SymTD):
+            return SymDT(self.us - o.us)
+        if isinstance(o, _dt.timedelta):
+            return SymDT(self.us - ((o.days * 86400 + o.seconds) * 10**6 + o.microseconds))
+        if isinstance(o, (SymDT, _dt.datetime)):
+            return SymTD(self.us - SymDT.lift(o).us)
+        return NotImplemented
+
+    def __rsub__(self, o):
+        if isinstance(o, _dt.datetime):
+            return SymTD(SymDT.lift(o).us - self.us)
+        return NotImplemented
+
+    def _c(self, o, f):
+        if isinstance(o, (SymDT, _dt.datetime)):
+            return f(self.us, SymDT.lift(o).us)
+        return NotImplemented
+
+    def __lt__(self, o):
+        return self._c(o, lambda a, b: a < b)
+
+    def __le__(self, o):
+        return self._c(o, lambda a, b: a <= b)
+
+    def __gt__(self, o):
+        return self._c(o, lambda a, b: a > b)
+
+    def __ge__(self, o):
+        return self._c(o, lambda a, b: a >= b)
+
+    def __eq__(self, o):
+        r = self._c(o, lambda a, b: a == b)
+        return False if r is NotImplemented else r
+
+    def __ne__(self, o):
+        r = self._c(o, lambda a, b: a != b)
+        return True if r is NotImplemented else r
+
+    # ---- local time zone (the only OS dependency)
+    def timestamp(self):
+        off = tz_offset_us(self.us, local=True)
+        u = self.us - off
+        return SymReal(lin_of(u).scale(Fraction(1, 10**6))) if isinstance(u, SymNum) else u / 10**6
+
+    def strftime(self, fmt):
+        e = cur()
+        tab = e.pm.setdefault("strf_memo", {})
+        k = (lin_of(self.us).key(), fmt)
+        if k not in tab:
+            tab[k] = "@T%d@" % len(tab)
+            e.pm.setdefault("strf_holes", {})[tab[k]] = (self, fmt)
+        return tab[k]
+
+    def __repr__(self):
+        return "SymDT(%r us)" % (self.us,)
+
+
+def tz_offset_us(us, local):
+    """offset of the modelled local zone at a naive local instant (local=True) or a UTC instant (local=False)"""
+    e = cur()
+    tz = getattr(e, "tz", "utc")
+    if tz == "utc":
+        return 0
+    st = e.pm.get("tz_state")
+    if st is None:
+        q = 15 * 60 * 10**6
+        o1 = e.integer("tz_off1_quarters", -48, 56)
+        st = dict(o1=o1 * q)
+        if tz == "dst":
+            o2 = e.integer("tz_off2_quarters", -48, 56)
+            tr = e.integer("tz_transition_s", -2208988800, 7289654400)
+            e.assume(Or(o2 - o1 == 4, o1 - o2 == 4, o2 - o1 == 2, o1 - o2 == 2))
+            st.update(o2=o2 * q, tr=tr * 10**6)
+        e.pm["tz_state"] = st
+    if tz == "const":
+        return st["o1"]
+    # one transition at UTC instant tr: offset o1 before, o2 after (gap/fold: first matching rule like mktime)
+    if local:
+        before = (us - st["o1"]) < st["tr"]
+    else:
+        before = us < st["tr"]
+    b = before if isinstance(before, bool) else e.branch(before)
+    return st["o1"] if b else st["o2"]
+
+
+def fromtimestamp(s):
+    us = to_us(s, 10**6)
+    off = tz_offset_us(us, local=False)
+    return SymDT(us + off)
+
+
+class SymDate(object):
+    __symbolic__ = True
+    __hash__ = None
+    kind = "date"
+
+    def __init__(self, N):
+        self.N = N
+
+    @staticmethod
+    def fresh(e, name, ylo=1900, yhi=2200):
+        lo = (_dt.date(ylo, 1, 1) - _dt.date(1970, 1, 1)).days
+        hi = (_dt.date(yhi, 12, 31) - _dt.date(1970, 1, 1)).days
+        return SymDate(e.integer(name, lo, hi))
+
+    year = property(lambda s: civil_of_day(s.N).y)
+    month = property(lambda s: civil_of_day(s.N).m)
+    day = property(lambda s: civil_of_day(s.N).d)
+
+    def __repr__(self):
+        return "SymDate(%r)" % (self.N,)
+
+
+class SymTime(object):
+    __symbolic__ = True
+    __hash__ = None
+    kind = "time"
+
+    def __init__(self, us):
+        self.us = us
+
+    @staticmethod
+    def fresh(e, name, unit_us=1000):
+        t = e.integer(name, 0, DAY_US // unit_us - 1)
+        return SymTime(t * unit_us)
+
+    def __repr__(self):
+        return "SymTime(%r)" % (self.us,)
+
+
+# ----------------------------------------------------------------------------------------
+# factories injected in place of the names the modules imported
+# ----------------------------------------------------------------------------------------
+class _Meta(type):
+    def __instancecheck__(cls, x):
+        return cls._check(x)
+
+
+class datetime_factory(metaclass=_Meta):
+    real = _dt.datetime
+    min = _dt.datetime.min
+    max = _dt.datetime.max
+
+    @staticmethod
+    def _check(x):
+        return isinstance(x, (SymDT, _dt.datetime))
+
+    def __new__(cls, year, month=None, day=None, hour=0, minute=0, second=0, microsecond=0, tzinfo=None):
+        args = (year, month, day, hour, minute, second, microsecond)
+        if not any(isinstance(a, SymNum) for a in args):
+            return _dt.datetime(year, month, day, hour, minute, second, microsecond)
+        return SymDT.from_fields(*args)
+
+    @staticmethod
+    def fromtimestamp(s, tz=None):
+        if isinstance(s, (SymNum, SymFrac)) or getattr(cur_or_none(), "tz", "utc") != "utc":
+            return fromtimestamp(s)
+        return _dt.datetime.fromtimestamp(s)
+
+    @staticmethod
+    def combine(d, t):
+        if isinstance(d, SymDT):
+            d = d.date()
+        if isinstance(d, SymDate) or isinstance(t, SymTime):
+            N = d.N if isinstance(d, SymDate) else (d - _dt.date(1970, 1, 1)).days
+            if isinstance(t, SymTime):
+                tod = t.us
+            else:
+                tod = ((t.hour * 60 + t.minute) * 60 + t.second) * 10**6 + t.microsecond
+            return SymDT(N * DAY_US + tod)
+        return _dt.datetime.combine(d, t)
+
+    @staticmethod
+    def now(tz=None):
+        return _dt.datetime.now()
+
+    @staticmethod
+    def today():
+        return _dt.datetime.today()
+
+
+class date_factory(metaclass=_Meta):
+    real = _dt.date
+
+    @staticmethod
+    def _check(x):
+        return isinstance(x, (SymDT, SymDate, _dt.date))
+
+    def __new__(cls, y, m, d):
+        if not any(isinstance(a, SymNum) for a in (y, m, d)):
+            return _dt.date(y, m, d)
+        return SymDT.from_fields(y, m, d).date()
+
+    @staticmethod
+    def today():
+        h = getattr(cur_or_none(), "today_hook", None)
+        if h is not None:
+            return h()
+        return _dt.date.today()
+
+
+class time_factory(metaclass=_Meta):
+    real = _dt.time
+
+    @staticmethod
+    def _check(x):
+        return isinstance(x, (SymTime, _dt.time))
+
+    def __new__(cls, *a, **k):
+        return _dt.time(*a, **k)
+
+
+class timedelta_factory(metaclass=_Meta):
+    real = _dt.timedelta
+
+    @staticmethod
+    def _check(x):
+        return isinstance(x, (SymTD, _dt.timedelta))
+
+    def __new__(cls, *a, **k):
+        return timedelta(*a, **k)
+
+
+class _DTModule(object):
+    """stands in for `import datetime`"""
+
+    datetime = datetime_factory
+    date = date_factory
+    time = time_factory
+    timedelta = timedelta_factory
+    MINYEAR = _dt.MINYEAR
+    MAXYEAR = _dt.MAXYEAR
+
+
+def cur_or_none():
+    return E.ENGINE
 
 
 def sym_isinstance(x, t):
+    if isinstance(t, tuple):
+        rs = [sym_isinstance(x, u) for u in t]
+        if any(r is True for r in rs):
+            return True
+        if all(r is False for r in rs):
+            return False
+        return None
+    if t in (datetime_factory, date_factory, time_factory, timedelta_factory):
+        return t._check(x)
+    if isinstance(x, (SymDT, SymDate, SymTime, SymTD)):
+        if t is _dt.datetime:
+            return isinstance(x, SymDT)
+        if t is _dt.date:
+            return isinstance(x, (SymDT, SymDate))
+        if t is _dt.time:
+            return isinstance(x, SymTime)
+        if t is _dt.timedelta:
+            return isinstance(x, SymTD)
+        return False
     return None
 
 
 def install(module):
-    pass
+    g = module.__dict__
+    if g.get("datetime") is _dt.datetime:
+        g["datetime"] = datetime_factory
+    elif g.get("datetime") is _dt:
+        g["datetime"] = _DTModule()
+    if g.get("timedelta") is _dt.timedelta:
+        g["timedelta"] = timedelta_factory
+    if g.get("date") is _dt.date:
+        g["date"] = date_factory
